@@ -1,6 +1,6 @@
-SPECIFICATION Spec
-CONSTANTS PairSrc = "all" CtxU = "few" MaxFlow = 0 KeyU = "five"
-INVARIANT KeyCharacterises
-INVARIANT ProjIsPart
-INVARIANT OwnerIsLongest
+SPECIFICATION RSpec
+CONSTANTS PairSrc = "all" CtxU = "few" MaxFlow = 0 KeyU = "six"
+INVARIANT KeyCharStep
+INVARIANT ProjPartStep
+INVARIANT OwnerStep
 CHECK_DEADLOCK FALSE
